@@ -138,6 +138,24 @@ class Choice:
     def __ne__(self, o): from . import ops; return ops.compare('!=', self, o)
 
 
+class SDict:
+    """dictionary with symbolic integer keys: (domain predicate, value array); built by d[k] = v in loops"""
+    __slots__ = ('dom', 'vals', 'ek')
+
+    def __init__(self, dom, vals, ek):
+        self.dom, self.vals, self.ek = dom, vals, ek
+
+    def __repr__(self):
+        return 'SDict<%s>' % self.ek
+
+
+class RandVal:
+    """a random.Random() instance: every method returns a fresh value constrained by the library contract"""
+
+    def __repr__(self):
+        return 'RandVal'
+
+
 class Obj:
     def __init__(self, cls, name=None):
         self.cls = cls          # sandbox python class
@@ -184,4 +202,4 @@ def arr_sort(ek):
 
 
 def is_symbolic(v):
-    return isinstance(v, (Sym, SChar, SSeq, SSet, Choice))
+    return isinstance(v, (Sym, SChar, SSeq, SSet, Choice, SDict))
